@@ -136,6 +136,18 @@ def handle : List String → Option String
       let rx ← rat? rx; let ry ← rat? ry
       if rx = 0 ∨ ry = 0 then some "err:zerodiv" else some (showDom (domainRes (fullExtentRes west east c rx) rx ry))
     | _ => none
+  | ["plan", argRes, selfRes, argShape, ah, aw, sh, sw, ext] => do
+    -- plan <argRes|none> <selfRes|none> <some|none> <ah|none> <aw|none> <sh|none> <sw|none> <ext: 1|0>
+    let optRat := fun (t : String) => if t = "none" then some (none : Option Rat) else (rat? t).map some
+    let optInt := fun (t : String) => if t = "none" then some (none : Option Int) else (int? t).map some
+    let ar ← optRat argRes; let sr ← optRat selfRes
+    let ah ← optInt ah; let aw ← optInt aw; let sh ← optInt sh; let sw ← optInt sw
+    let ash := if argShape = "some" then some (ah, aw) else none
+    let e := if ext = "1" then some ((0 : Rat), (0 : Rat), (1 : Rat), (1 : Rat)) else none
+    let p := freezePlan ar sr ash (sh, sw) e
+    let so := fun (o : Option Int) => match o with | some v => toString v | none => "none"
+    some ((match p.res with | some q => showRat q | none => "none") ++ " " ++ (if p.shape.isSome then "shape" else "noshape") ++ " " ++
+          so p.height ++ " " ++ so p.width ++ " " ++ (if p.need then "compute" else "keep"))
   | "anti" :: shift :: rest => do
     let shift ← rat? shift
     -- anti <shift> <n> lon…   (a longitude is a rational or `nan`)
